@@ -319,8 +319,8 @@ func judge(r *mon.Rec, t *testing.T, sc scenario) {
 		bad("xid-not-reusable", "a call with the same transaction id immediately after the return got %v", o.reuseErr)
 		return
 	}
-	if sc.Event == "close-err" && o.closeErr == errScriptedClose {
-		o.closeErr = nil // Close may pass on what the connection reported
+	if sc.Event == "close-err" {
+		o.closeErr = nil // what Close returns when the connection reported an error is not laid down: passed on, wrapped or dropped
 	}
 	if o.follow {
 		// the follow-up call starts when the first one has returned and is a call like any other: it ends with the
